@@ -45,9 +45,11 @@ def shapes():
         out.append(b)
         # chained transfers: on delivery the receiving application pulls the next message with a single frame, and the
         # originating application submits it from its receive callback (i.e. from the thread that feeds frames in)
-        c = base_scn(dll, 'cmdt', 255, npk=3)
-        c['chain'] = True
-        out.append(c)
+        for delay_us in (0, 500):
+            c = base_scn(dll, 'cmdt', 255, npk=3)
+            c['chain'] = True
+            c['pull_delay_us'] = delay_us     # 0: the pull overtakes the acknowledgement (J1939-22) / follows it directly; 500: it arrives a little later
+            out.append(c)
     return out
 
 
@@ -133,7 +135,10 @@ def execute(scn, keep_log=False, hook=None):
             # receiving application: got the first message -> pull the next one
             if pgn == 0xD000 and not chain['pulled'] and bytes(bytearray(d)) == bytes(data):
                 chain['pulled'] = True
-                R.cas[0].send_pgn(0, 0xD8, O_ADDR, 6, [1, 2, 3])
+                if scn.get('pull_delay_us'):
+                    sim.after(scn['pull_delay_us'] * 1000, lambda: R.cas[0].send_pgn(0, 0xD8, O_ADDR, 6, [1, 2, 3]), 'op')
+                else:
+                    R.cas[0].send_pgn(0, 0xD8, O_ADDR, 6, [1, 2, 3])
 
         def o_submit():
             chain['tries'] += 1
